@@ -39,5 +39,12 @@ SCHEMA = {
     'SegmentChainer': {'sequentialityScorer': OBJ('SequentialityScorer')},
     '_ConflictingSegmentCharacteristics': {'positions': LIST(PWS), 'scores': LIST(REAL), 'indexes': LIST(INT)},
     'PeaksSelector': {'count': INT},
+    'AlignmentResultRow': {'queryId': INT, 'referenceId': INT, 'queryStartPosition': REAL, 'queryEndPosition': REAL,
+                           'referenceStartPosition': REAL, 'referenceEndPosition': REAL, 'reverseStrand': BOOL,
+                           'confidence': REAL, 'queryLength': REAL, 'referenceLength': REAL, 'segments': LIST(SEG),
+                           'alignedRest': BOOL,
+                           # ghost mirror of the read-only property `alignedPairs` (see specs/hitenum.py)
+                           'alignedPairs': LIST(PAIR)},
+    'AlignmentSegmentsWithResolvedConflicts': {'segments': LIST(SEG)},
     'SequenceGenerator': {'resolution': INT, 'blurRadius': INT},
 }
